@@ -607,11 +607,11 @@ def r5_layout(chk):
     chk.floor('C02.R5', 15, 'layout rules')
 
 
-def r6_entry_point(chk):
+def r6_entry_point(chk, rule='C02.R6'):
     model = chk.model
     owner, fn = model.method(PARSER, 'SmiV2Parser', 'parse')
     mod = owner.mod
-    chk.doc('C02.R6', 'parse() returns the second component of the mibFile node (the module list) unchanged; the '
+    chk.doc(rule, 'parse() returns the second component of the mibFile node (the module list) unchanged; the '
                       'mibFile and modules actions keep modules in source order (R1/R2)')
     ycalls = [c for c in walk_no_nested(fn) if isinstance(c, ast.Call) and isinstance(c.func, ast.Attribute) and
               c.func.attr == 'parse' and norm(c.func.value) == 'self.parser']
@@ -620,24 +620,31 @@ def r6_entry_point(chk):
         st = common.stmt_of(ycalls[0])
         if isinstance(st, ast.Assign) and isinstance(st.targets[0], ast.Name):
             tree = st.targets[0].id
-            chk.ob('C02.R6', 'SmiV2Parser.parse/text-arg', bool(ycalls[0].args) and
+            chk.ob(rule, 'SmiV2Parser.parse/text-arg', bool(ycalls[0].args) and
                    norm(ycalls[0].args[0]) == fn.args.args[1].arg, where(mod, ycalls[0]),
                    'the text given to parse() must reach yacc unchanged')
+            tp = fn.args.args[1].arg
+            rebound = [x for x in walk_no_nested(fn) if isinstance(x, (ast.Assign, ast.AugAssign)) and any(
+                isinstance(t, ast.Name) and t.id == tp for t in (x.targets if isinstance(x, ast.Assign) else [x.target]))]
+            chk.ob(rule, 'SmiV2Parser.parse/text-not-rewritten', not rebound, where(mod, rebound[0]) if rebound else
+                   where(mod, fn), 'parse() rewrites its text before lexing (%s): characters inside quoted strings and the '
+                   'line numbers of everything after the edit are no longer those of the text that was given' % (
+                       norm(rebound[0])[:70] if rebound else ''))
     rets = [x for x in walk_no_nested(fn) if isinstance(x, ast.Return) and x.value is not None and
             not (isinstance(x.value, ast.List) and not x.value.elts)]
     ok = bool(tree) and len(rets) == 1 and norm(rets[0].value) == '%s[1]' % tree
-    chk.ob('C02.R6', 'SmiV2Parser.parse/returns-module-list', ok, where(mod, fn),
+    chk.ob(rule, 'SmiV2Parser.parse/returns-module-list', ok, where(mod, fn),
            'returns: %s' % [norm(x.value) for x in rets])
     for dname, gs in all_shapes(chk)[:1]:
         for p in gs.d.prods:
             if p.lhs == 'mibFile' and p.rhs == ('modules',):
                 t = gs.terms[p]
                 ok = isinstance(t, Tup) and len(t.items) == 2 and isinstance(t.items[1], Sym) and t.items[1].i == 1
-                chk.ob('C02.R6', 'p_mibFile', ok, '%s:%s' % (PARSER, p.fn.lineno), repr(t))
+                chk.ob(rule, 'p_mibFile', ok, '%s:%s' % (PARSER, p.fn.lineno), repr(t))
             if p.lhs == 'module':
                 t = gs.terms[p]
                 ok = repr(t) == '(p1, p2, p7, p8)'
-                chk.ob('C02.R6', 'p_module', ok, '%s:%s' % (PARSER, p.fn.lineno), 'module tuple is %r' % t)
+                chk.ob(rule, 'p_module', ok, '%s:%s' % (PARSER, p.fn.lineno), 'module tuple is %r' % t)
 
 
 def r7_history_independence(chk):
@@ -656,5 +663,49 @@ def r8_number_tokens(chk):
         chk.ob('C02.R8', o.key, o.ok, o.where, o.detail)
 
 
+
+def r9_identifier_classes(chk):
+    """Identifiers reach the tree as written only if the lexer takes each one as ONE token of the right class.  The
+    classes (SMI: upper-case identifiers start with an upper-case letter, lower-case ones with a lower-case letter; pysmi
+    CHANGES 0.1.4: "tokens starting from a digit [belong] to a lower-cased class", e.g. 802dot3(10006), 3com) are
+    checked by asking each rule's regular expression - as data, with the `re` engine - about a table of probe words,
+    and by the order of the rule functions (ply tries them in definition order, first match wins)."""
+    import re as _re
+    from rules.C11 import lexer_model
+    lm = lexer_model(chk)
+    mod = chk.model.mod(LEXER)
+    chk.doc('C02.R9', 'lexer, INITIAL state: LOWERCASE_IDENTIFIER matches a, ifIndex, if-index, a1, 3com, 802dot3, '
+                      '100baseStatus in full and none of A, Abc, 12, -a; UPPERCASE_IDENTIFIER matches A, IF-MIB, '
+                      'DisplayString, A1 and none of a, ifIndex, 12; NUMBER matches 0, 12, -1 and no word containing a '
+                      'letter; the identifier rules are defined before t_NUMBER, so a digit-leading name is one token')
+    table = {
+        't_LOWERCASE_IDENTIFIER': (['a', 'ifIndex', 'if-index', 'a1', '3com', '802dot3', '100baseStatus'],
+                                   ['A', 'Abc', '12', '-a']),
+        't_UPPERCASE_IDENTIFIER': (['A', 'IF-MIB', 'DisplayString', 'A1'], ['a', 'ifIndex', '12']),
+        't_NUMBER': (['0', '12', '-1'], ['a', '1a', 'A1', '3com']),
+    }
+    rules_ = dict((r.name, r) for r in lm.rules['INITIAL'])
+    order = [r.name for r in lm.rules['INITIAL'] if r.fn is not None]
+    order.sort(key=lambda n: rules_[n].fn.lineno)
+    for name, (yes, no) in sorted(table.items()):
+        r = rules_.get(name)
+        if r is None:
+            chk.ob('C02.R9', name, False, LEXER, 'rule missing')
+            continue
+        try:
+            rx_ = _re.compile(r.pattern, lm.flags)
+        except _re.error as e:
+            chk.ob('C02.R9', name, False, where(mod, r.fn), 'regex does not compile: %s' % e)
+            continue
+        miss = [w for w in yes if not rx_.fullmatch(w)]
+        extra = [w for w in no if rx_.fullmatch(w)]
+        chk.ob('C02.R9', name + '/class', not miss and not extra, where(mod, r.fn),
+               'regex %r: does not take %s as one token; wrongly takes %s' % (r.pattern, miss, extra))
+    ok = all(n in order for n in table) and order.index('t_LOWERCASE_IDENTIFIER') < order.index('t_NUMBER') and \
+        order.index('t_UPPERCASE_IDENTIFIER') < order.index('t_NUMBER')
+    chk.ob('C02.R9', 'identifier rules before t_NUMBER', ok, LEXER,
+           'ply tries function rules in definition order: with t_NUMBER first, 3com is split into 3 and com')
+
+
 RULES = [r1_nothing_dropped, r2_list_idiom, r2b_operand_shapes, r3b_prepdata, r3_producer_consumer, r4_token_values, r5_layout, r6_entry_point,
-         r7_history_independence, r8_number_tokens]
+         r7_history_independence, r8_number_tokens, r9_identifier_classes]
